@@ -324,6 +324,9 @@ def run_job(unit, job, scratch, tier):
         r["broken"] = "solver reported (error ...)"
         return r
     res, status, msgs = parse_cbmc_json(so)
+    if rss > mem * 1024 * 1024 * 0.85 or "bad_alloc" in se or "Out of memory" in se or "out of memory" in so:
+        r["broken"] = "memory-out (rss %d MB, limit %d GB)" % (rss // 1024, mem)
+        return r
     if res is None:
         r["broken"] = "no result from cbmc (rc=%s): %s %s" % (rc, msgs, se[-500:])
         return r
@@ -576,12 +579,12 @@ def main():
                     j["entry"], r["backend"], r["wall_s"], r["max_rss_kb"] // 1024, r["n_props"], r["witnesses_ok"], tag))
         results.sort(key=lambda r: r["entry"])
         # every witness label must be reachable in at least one obligation of this run
-        reached = {(r["job"]["entry"], w) for r in results for w in r.get("wit_reached", [])}
+        reached = {w for r in results for w in r.get("wit_reached", [])}
         for r in results:
             if r["broken"]:
                 continue
             for w in r.get("wit_unreached", []):
-                if (r["job"]["entry"], w) not in reached and only is None:
+                if w not in reached and only is None:
                     r["broken"] = "vacuity guard: witness never reachable in any configuration: " + w
         known = load_known(pid)
         violations, known_hits, broken = [], [], []
